@@ -283,7 +283,9 @@ def run(ctx, drv, cap=None):
                 "several -I/-isystem directories; quote, angle, computed and path-qualified includes nested up to depth 5; "
                 "guarded / #pragma once / unguarded headers that define, undefine and test macros; 1-2 translation units, "
                 "each with its own random order of -I / -Idir / -isystem flags, -D and -include options, optionally a "
-                "symlinked include directory) plus all 60 orders of 2-4 flags on a fixed order-sensitive tree. "
+                "symlinked include directory; twin commands that search the same directories in another order; headers also at the top of the tree; "
+                "partially guarded headers (#else on the guard, text after its #endif); a header that includes itself for a second pass) "
+                "plus all 60 orders of 2-4 flags on a fixed order-sensitive tree. "
                 "Non-trivial = well-formed tree (every reached include resolves) in which at least one reached include has "
                 "two or more distinct existing candidates, i.e. the search order decides the outcome.")
     ctx.assumptions += [
